@@ -196,6 +196,9 @@ def forward_checks(rep, fnd, pid, tier):
                 break
         n_ok += good
     # ---- other sizes: documented shapes, non-negativity, never raise
+    # one long-lived object per layer type, called with every size in turn: a layer must not remember anything about
+    # earlier sizes (an extension decision cached per block of 8 would show here and nowhere in one-call-per-object runs)
+    persistent = {"ScatLayer": pw.ScatLayer(), "ScatLayerj2": pw.ScatLayerj2()}
     for H in range(2, 20):
         for W in (2, 3, 8, 13):
             x = torch.tensor(rng.standard_normal((1, 2, H, W)))
@@ -213,6 +216,18 @@ def forward_checks(rep, fnd, pid, tier):
                     else:
                         rep.violation("%s raised %r on a %dx%d input (sizes >= 2 must be edge-extended)" % (name, e, H, W),
                                       {"api": name, "check": "scat_shape", "cfg": cfg})
+                    continue
+                try:
+                    zp = persistent[name](x)
+                    same = tuple(zp.shape) == tuple(z.shape) and bool(torch.equal(zp, z))
+                except Exception as e:   # noqa
+                    same = False
+                    zp = repr(e)
+                if not same:
+                    rep.violation("%s: a layer object that has been called with other sizes before returns something else on a %dx%d input than a "
+                                  "fresh layer (%s)" % (name, H, W, zp if isinstance(zp, str) else "values differ by %.3g" % (
+                                      float((zp - z).abs().max()) if tuple(zp.shape) == tuple(z.shape) else float("nan"))),
+                                  {"api": name, "check": "scat_reuse", "cfg": cfg})
                     continue
                 if tuple(z.shape) != want or not (float(z[:, first_mag:].min()) >= 0) or not bool(torch.isfinite(z).all()):
                     rep.violation("%s on a %dx%d input: shape %s (documented %s) or a negative magnitude" % (name, H, W, tuple(z.shape), want),
